@@ -602,7 +602,7 @@ skip_spwsp(const uint8_t *buf, size_t buf_size,
 		return (EINVAL);
 	buf_max = (buf + buf_size);
 	/* Skip head spaces. */
-	for (; 33 > (*buf) && buf < buf_max; buf ++)
+	for (; buf < buf_max && 33 > (*buf); buf ++)
 		;
 	if (NULL != buf_ret) {
 		(*buf_ret) = buf;
@@ -622,13 +622,13 @@ skip_spwsp2(const uint8_t *buf, size_t buf_size,
 	buf_max = (buf + buf_size - 1);
 	if (NULL != buf_ret) {
 		/* Skip head spaces. */
-		for (; 33 > (*buf) && buf <= buf_max; buf ++)
+		for (; buf <= buf_max && 33 > (*buf); buf ++)
 			;
 		(*buf_ret) = buf;
 	}
 	if (NULL != buf_size_ret) {
 		/* Skip tail spaces. */
-		for (; 33 > (*buf_max) && buf <= buf_max; buf_max --)
+		for (; buf <= buf_max && 33 > (*buf_max); buf_max --)
 			;
 		(*buf_size_ret) = (size_t)((buf_max + 1) - buf);
 	}
